@@ -77,6 +77,8 @@ class Pool():
         return self._get_all_workers()
 
     def add_worker(self, worker_type, name=None, userid=None, target=None, args=None, kwargs=None, **worker_kwargs):
+        if self._pool_closed:
+            raise RuntimeError('Trying to add a worker to a closed Pool')
         worker = None
         with self._workers_lock:
             if name is None:
@@ -126,6 +128,8 @@ class Pool():
     def attach(self, worker):
         if not isinstance(worker, Worker):
             raise ValueError('Worker expected')
+        if self._pool_closed:
+            raise RuntimeError('Trying to attach a worker to a closed Pool')
 
         with self._workers_lock:
             if worker.id in self._workers:
